@@ -38,6 +38,45 @@ pub(crate) mod verif_kani {
         assert_eq!(got, expected(&b));
     }
 
+    /// exact UTF-8 validity of a 24-byte name (what the type `&str` guarantees), written so that CBMC handles it cheaply
+    fn valid_utf8(b: &[u8; 24]) -> bool {
+        // one pass, as a state machine: `need` continuation bytes are still owed, the next one must lie in lo..=hi
+        let (mut need, mut lo, mut hi) = (0u8, 0x80u8, 0xBFu8);
+        let mut i = 0;
+        while i < 24 {
+            let c = b[i];
+            if need == 0 {
+                if c < 0x80 {
+                } else if c >= 0xC2 && c <= 0xDF { need = 1; lo = 0x80; hi = 0xBF;
+                } else if c == 0xE0 { need = 2; lo = 0xA0; hi = 0xBF;
+                } else if c == 0xED { need = 2; lo = 0x80; hi = 0x9F;
+                } else if c >= 0xE1 && c <= 0xEF { need = 2; lo = 0x80; hi = 0xBF;
+                } else if c == 0xF0 { need = 3; lo = 0x90; hi = 0xBF;
+                } else if c == 0xF4 { need = 3; lo = 0x80; hi = 0x8F;
+                } else if c >= 0xF1 && c <= 0xF3 { need = 3; lo = 0x80; hi = 0xBF;
+                } else { return false; }
+            } else {
+                if c < lo || c > hi { return false; }
+                need -= 1; lo = 0x80; hi = 0xBF;
+            }
+            i += 1;
+        }
+        need == 0
+    }
+
+    /// K-fname-nb: the remaining 24-byte names, those whose byte 4 is NOT a char boundary: all VALID UTF-8 strings of 24 bytes with a
+    /// multi-byte character straddling offset 4.  The function must return None -- and must not panic (C10: a stray file with such a
+    /// name must not make `open` panic).
+    #[kani::proof]
+    #[kani::unwind(26)]
+    fn k_fname_nb() {
+        let b: [u8; 24] = kani::any();
+        kani::assume((b[4] as i8) < -0x40);
+        kani::assume(valid_utf8(&b));
+        let s = unsafe { std::str::from_utf8_unchecked(&b) };
+        assert_eq!(filename_to_position(s), None);
+    }
+
     /// K-fname-len: any name whose length is not 24 (0..=32) is rejected.
     #[kani::proof]
     #[kani::unwind(34)]
